@@ -427,6 +427,7 @@ const RULE_TAIL: &str = "Oracles per forwarded HTLC pair (matched by payment has
 
 fn main() {
 	install_recording_signer();
+	netsim::rec::tolerate_monitor_roundtrip_tripwire();
 	let mut c = Check::new("C02", "exploration");
 	c.assume("peers of B are unmodified LDK nodes that stay up; messages are delivered FIFO per direction, individually, at generated times");
 	c.assume("Persist follows its documented contract (InProgress at any time, completion in any order, back to synchronous only when nothing is in flight); a restart uses the durable (or latest written) monitor images and any manager snapshot taken earlier");
